@@ -271,6 +271,9 @@ HOSTILE = [('tab_in_criterion', 'crit', 'me\tm'), ('cr_in_criterion', 'crit', 'm
            ('separator_in_run_columns', 'cols', 'folded args\n'), ('separator_in_run_columns', 'cols', 'a\tb')]
 
 
+UNREACHABLE = {'cr_in_unit'}
+
+
 class _FakeRun(object):
     warmup_iterations = 0
 
@@ -309,6 +312,16 @@ def line_check(ck, n):
     from rebench.model.run_id import RunId
     rng = ck.rng
     cases = []
+    for (kind, field, text) in HOSTILE:      # every hostile class on every run, then random lines
+        c = {'kind': kind, 'inv': 3, 'it': 2, 'value': 12.5, 'unit': 'ms', 'crit': 'mem',
+             'cols': ['B', 'E', 'S', '', '1', '', '', '', ''], 'rid': 0}
+        if field == 'cols':
+            c['cols'][3] = text
+        else:
+            c[field] = text
+        cases.append(c)
+    cases.append({'kind': 'bool_value', 'inv': 1, 'it': 1, 'value': True, 'unit': 'bool', 'crit': 'Success',
+                  'cols': ['B', 'E', 'S', '', '1', '', '', '', ''], 'rid': 0})
     for i in range(n):
         kind = 'plain'
         unit, crit = rng.choice(SAFE[:13]), rng.choice(SAFE)
@@ -378,7 +391,11 @@ def line_check(ck, n):
             p = parsed[0]
             ok = (p['inv'], p['it'], p['unit'], p['crit'], p['rid']) == (c['inv'], c['it'], c['unit'], c['crit'], c['rid']) \
                 and abs(Fraction(p['value']) - Fraction(c['value'])) <= Fraction(1, 2000000) + Fraction(1, 10 ** 15) * abs(Fraction(c['value']))
-        if not ok:
+        if not ok and classify_line(c) in UNREACHABLE:
+            # no adapter can deliver such a string any more (JMH's unit pattern is [^\\r]+): the line-level
+            # model is still compared above, but this is not a reachable violation of the property
+            ck.count('line:class-no-adapter-produces')
+        elif not ok:
             ck.oracle_fail('measurement_reloads', inp, {'reloaded': parsed},
                            {'class': classify_line(c), 'level': 'line'})
 
@@ -411,7 +428,10 @@ def gen_history(rng):
         specs[0]['stop'] = rng.randint(1, 8)
     if n > 2 and rng.random() < 0.3:
         specs[1]['stop'] = rng.randint(1, 4)
-    return {'cfg': cfg, 'specs': specs, 'seed': rng.randint(0, 10 ** 9), 'argv': []}
+    scen = {'cfg': cfg, 'specs': specs, 'seed': rng.randint(0, 10 ** 9), 'argv': []}
+    if rng.random() < 0.25:
+        scen['hostile'] = rng.choice([['me\tm'], ['me\rm'], ['me\tm', 'a\rb', 'x\ty\tz']])
+    return scen
 
 
 def session_check(ck, scens, tag):
@@ -430,7 +450,12 @@ def session_check(ck, scens, tag):
     for (scen, probe, outputs, build_ok, observed), ans in zip(items, answers):
         inp = {'cfg': scen['cfg'], 'specs': scen['specs'], 'seed': scen['seed'], 'argv': scen.get('argv', []),
                'outputs': outputs, 'build_ok': build_ok}
-        judge_history(ck, inp, probe, outputs, observed, ans, scen.get('class'))
+        if scen.get('hostile'):
+            inp['hostile'], inp['hostile_applied'] = scen['hostile'], True
+        klass = scen.get('class') or history_class(scen['cfg'])
+        if klass != 'separator_in_run_columns' and scen.get('hostile'):
+            klass = 'separator_in_criterion'
+        judge_history(ck, inp, probe, outputs, observed, ans, klass)
 
 
 def history_class(cfg):
@@ -474,17 +499,23 @@ def judge_history(ck, inp, probe, outputs, observed, ans, klass=None):
         impl_files = []
         for fi in range(n_files):
             kept = ob.files[fi].startswith(ob.before[fi])
-            lines, _m = dp.canon_lines(ob.files[fi][len(ob.before[fi]):] if kept else ob.files[fi], probe)
-            impl_files.append({'prefix_kept': kept, 'appended': lines})
+            segs = dp.canon_segments(ob.files[fi][len(ob.before[fi]):] if kept else ob.files[fi], probe)
+            impl_files.append({'prefix_kept': kept, 'segments': segs})
         impl_loaded = None if ob.loaded is None else [list(ob.loaded.get(i, (None, None))) for i in range(len(probe.runs))]
         model_loaded = [[r['m'], r['samples']] for r in ms['loaded']]
         impl = {'end': impl_end, 'trace': impl_trace, 'files': impl_files, 'loaded': impl_loaded}
-        model = {'end': ms['end'], 'trace': ms['trace'], 'files': ms['files'], 'loaded': model_loaded}
+        model_end = {'load-error:unknown-run-id': 'ui_error', 'load-error:mixed-data-point': 'ui_error',
+                     'load-error:assert-bench-dup': 'crash:AssertionError',
+                     'load-error:assert-bench-id': 'crash:AssertionError',
+                     'load-error:assert-run-id': 'crash:AssertionError'}.get(ms['end'], ms['end'])
+        model = {'end': model_end, 'trace': ms['trace'],
+                 'files': [{'prefix_kept': f['prefix_kept'], 'segments': f['segments']} for f in ms['files']],
+                 'loaded': model_loaded}
+        if ms['end'].startswith('load-error'):
+            impl.pop('loaded', None), model.pop('loaded', None)
         if ob.loaded is None:
             impl.pop('loaded'), model.pop('loaded')
-        if klass == 'separator_in_run_columns':
-            pass   # text-level effect: modelled line by line (c07.line), not by the abstract session model
-        elif impl != model:
+        if impl != model:
             what = [k for k in impl if impl[k] != model[k]]
             ck.disagree('c07.sessions: session %d differs in %s' % (si, what), sinp,
                         {k: impl[k] for k in what} | {'status': ob.status, 'crash': ob.crash},
@@ -509,7 +540,8 @@ def judge_history(ck, inp, probe, outputs, observed, ans, klass=None):
                                     'what': 'samples'})
         # every measurement recorded by earlier sessions reloads with the same invocation, iteration,
         # criterion, unit and value (6 decimals) -- per criterion, not only the totals
-        if getattr(ob, 'reloaded', None) is not None and klass != 'separator_in_run_columns' and not ob.crash:
+        if getattr(ob, 'reloaded', None) is not None and klass != 'separator_in_run_columns' and not ob.crash \
+                and ob.status != 'ui_error':
             want = set()
             for i, invs in recorded.items():
                 for inv in invs:
@@ -521,10 +553,21 @@ def judge_history(ck, inp, probe, outputs, observed, ans, klass=None):
             if got != want:
                 missing = sorted(want - got, key=str)[:4]
                 extra = sorted(got - want, key=str)[:4]
-                odd = [m for m in missing if any(ch in m[3] for ch in ' %#"\'/')]
-                ck.oracle_fail('measurement_reloads', sinp, {'not_reloaded': missing, 'unexpected': extra,
-                                                             'n_written': len(want), 'n_reloaded': len(got)},
-                               {'class': 'criterion_with_unusual_characters' if odd else klass, 'level': 'session'})
+                allmiss = sorted(want - got, key=str)
+                seps = [m for m in allmiss if '\t' in m[3] or '\r' in m[3]]
+                others = [m for m in allmiss if m not in seps]
+                odd = [m for m in others if any(ch in m[3] for ch in ' %#"\'/')]
+                if others or not seps:
+                    ck.oracle_fail('measurement_reloads', sinp, {'not_reloaded': (others or missing)[:4],
+                                                                 'unexpected': extra, 'n_written': len(want),
+                                                                 'n_reloaded': len(got)},
+                                   {'class': 'criterion_with_unusual_characters' if odd else klass,
+                                    'level': 'session'})
+                for sepch, name in (('\t', 'tab_in_criterion'), ('\r', 'cr_in_criterion')):
+                    ms_ = [m for m in seps if sepch in m[3]]
+                    if ms_:
+                        ck.oracle_fail('measurement_reloads', sinp, {'not_reloaded': ms_[:4]},
+                                       {'class': name, 'level': 'session'})
         # recognised: nothing recorded is started again
         starts = [s for s in ob.starts if s[0] != 'report']
         last = len(starts) - 1     # the process that was running when an aborted session stopped
